@@ -24,10 +24,14 @@ import (
 const maxDepth = 32
 
 type rctx struct {
-	e     *Eng
-	fn    *ssa.Function // function from whose point of view we render
-	seen  map[ssa.Value]bool
-	depth int
+	e      *Eng
+	fn     *ssa.Function // function from whose point of view we render
+	seen   map[ssa.Value]bool
+	depth  int
+	inline bool                      // render calls of small pure helpers by their body
+	subst  map[*ssa.Parameter]string // parameter renderings while inlining
+	ilevel int
+	phiSub map[*ssa.Phi]ssa.Value // phis fixed to one incoming value (XsAt)
 }
 
 // X renders v from the point of view of function fn.
@@ -36,10 +40,147 @@ func (e *Eng) X(fn *ssa.Function, v ssa.Value) string {
 	return c.x(v)
 }
 
+// XI renders v like X but replaces calls of small pure single-expression helpers of the
+// module by their body (so that extracting such a helper does not change the rendering).
+func (e *Eng) XI(fn *ssa.Function, v ssa.Value) string {
+	c := &rctx{e: e, fn: fn, seen: map[ssa.Value]bool{}, inline: true}
+	return c.x(v)
+}
+
+// XsAt renders v as seen at instruction at in every way the walk r reached it: phis anywhere
+// inside the expression are fixed to the incoming value of the path (by the path context,
+// else by the reached edges).  "now.Add(d)" with d joined from two branches renders as the two
+// expressions a reader would write for the two branches.
+func (e *Eng) XsAt(r *Reached, at ssa.Instruction, v ssa.Value) []string {
+	fn := at.Parent()
+	var phis []*ssa.Phi
+	seen := map[ssa.Value]bool{}
+	var collect func(v ssa.Value, d int)
+	collect = func(v ssa.Value, d int) {
+		if v == nil || seen[v] || d > 14 {
+			return
+		}
+		seen[v] = true
+		if p, ok := v.(*ssa.Phi); ok {
+			if inductionPhi(p, 0) {
+				return
+			}
+			phis = append(phis, p)
+		}
+		if in, ok := v.(ssa.Instruction); ok {
+			if in.Parent() != fn {
+				return
+			}
+			for _, op := range in.Operands(nil) {
+				if *op != nil {
+					collect(*op, d+1)
+				}
+			}
+		}
+	}
+	collect(v, 0)
+	ctxs := []pctx{{}}
+	if r != nil {
+		if cs := r.Ctx[at.Block().Index]; len(cs) > 0 && len(cs) <= 128 {
+			ctxs = cs
+		}
+	}
+	out := map[string]bool{}
+	for _, c := range ctxs {
+		opts := make([][]ssa.Value, len(phis))
+		combos := 1
+		for i, p := range phis {
+			if slot, _, ok := c.get(p.Block().Index, -1); ok && slot < len(p.Edges) {
+				opts[i] = []ssa.Value{p.Edges[slot]}
+				continue
+			}
+			dd := map[ssa.Value]bool{}
+			for j, ed := range p.Edges {
+				if r != nil && !r.Edge[[2]int{p.Block().Preds[j].Index, p.Block().Index}] {
+					continue
+				}
+				if ed == ssa.Value(p) || dd[ed] {
+					continue
+				}
+				dd[ed] = true
+				opts[i] = append(opts[i], ed)
+			}
+			if len(opts[i]) == 0 {
+				opts[i] = nil
+			} else {
+				combos *= len(opts[i])
+			}
+		}
+		if combos > 64 {
+			out[e.X(fn, v)] = true
+			continue
+		}
+		idx := make([]int, len(phis))
+		for {
+			sub := map[*ssa.Phi]ssa.Value{}
+			for i, p := range phis {
+				if len(opts[i]) > 0 {
+					sub[p] = opts[i][idx[i]]
+				}
+			}
+			rc := &rctx{e: e, fn: fn, seen: map[ssa.Value]bool{}, phiSub: sub}
+			out[rc.x(v)] = true
+			k := 0
+			for k < len(phis) {
+				if len(opts[k]) == 0 {
+					k++
+					continue
+				}
+				idx[k]++
+				if idx[k] < len(opts[k]) {
+					break
+				}
+				idx[k] = 0
+				k++
+			}
+			if k >= len(phis) {
+				break
+			}
+		}
+	}
+	var ks []string
+	for k := range out {
+		ks = append(ks, k)
+	}
+	sort.Strings(ks)
+	return ks
+}
+
+// inlinable: a module function with a single block, one result, no effects.
+func (e *Eng) inlinable(f *ssa.Function) bool {
+	if f == nil || len(f.Blocks) != 1 || len(f.FreeVars) != 0 || f.Signature.Results().Len() != 1 {
+		return false
+	}
+	if !strings.HasPrefix(fnPkgPath(f), Mod) {
+		return false
+	}
+	ins := f.Blocks[0].Instrs
+	if len(ins) == 0 || len(ins) > 16 {
+		return false
+	}
+	for _, in := range ins {
+		switch x := in.(type) {
+		case *ssa.Store, *ssa.MapUpdate, *ssa.Send, *ssa.Go, *ssa.Defer, *ssa.Panic, *ssa.RunDefers, *ssa.Select, *ssa.Alloc, *ssa.MakeClosure:
+			return false
+		case *ssa.Call:
+			if x.Call.StaticCallee() == f {
+				return false
+			}
+		}
+	}
+	_, ok := ins[len(ins)-1].(*ssa.Return)
+	return ok
+}
+
 func calleeName(c *ssa.CallCommon) string {
 	if c.IsInvoke() {
 		recv := c.Value.Type()
-		return "invoke:" + short(types.TypeString(recv, nil)) + "." + c.Method.Name()
+		return "invoke:" + typeStr(recv) + "." + c.Method.Name()
 	}
 	if f := c.StaticCallee(); f != nil {
 		return fnName(f)
@@ -79,6 +220,9 @@ func (c *rctx) up(p *ssa.Function) string {
 }
 
 func (c *rctx) param(p *ssa.Parameter) string {
+	if s, ok := c.subst[p]; ok {
+		return s
+	}
 	fn := p.Parent()
 	pre := c.up(fn)
 	isMethod := fn.Signature.Recv() != nil
@@ -103,7 +247,7 @@ func constStr(k *ssa.Const) string {
 		}
 		switch k.Type().Underlying().(type) {
 		case *types.Struct, *types.Array:
-			return "zero:" + short(types.TypeString(k.Type(), nil))
+			return "zero:" + typeStr(k.Type())
 		}
 		return "nil"
 	}
@@ -295,6 +439,14 @@ func (c *rctx) x(v ssa.Value) string {
 		}
 		return c.call(v.Common())
 	case *ssa.Phi:
+		if sub, ok := c.phiSub[v]; ok {
+			if c.seen[v] {
+				return "cyc"
+			}
+			c.seen[v] = true
+			defer delete(c.seen, v)
+			return c.x(sub)
+		}
 		if inductionPhi(v, 0) {
 			return "i"
 		}
@@ -313,20 +465,20 @@ func (c *rctx) x(v ssa.Value) string {
 	case *ssa.ChangeInterface:
 		return c.x(v.X)
 	case *ssa.Convert:
-		return "conv:" + short(types.TypeString(v.Type(), nil)) + "(" + c.x(v.X) + ")"
+		return "conv:" + typeStr(v.Type()) + "(" + c.x(v.X) + ")"
 	case *ssa.MultiConvert:
-		return "conv:" + short(types.TypeString(v.Type(), nil)) + "(" + c.x(v.X) + ")"
+		return "conv:" + typeStr(v.Type()) + "(" + c.x(v.X) + ")"
 	case *ssa.TypeAssert:
-		s := "assert:" + short(types.TypeString(v.AssertedType, nil)) + "(" + c.x(v.X) + ")"
+		s := "assert:" + typeStr(v.AssertedType) + "(" + c.x(v.X) + ")"
 		return s
 	case *ssa.MakeClosure:
 		return "closure:" + fnName(v.Fn.(*ssa.Function))
 	case *ssa.MakeMap:
-		return "makemap:" + short(types.TypeString(v.Type(), nil))
+		return "makemap:" + typeStr(v.Type())
 	case *ssa.MakeSlice:
-		return "makeslice:" + short(types.TypeString(v.Type(), nil))
+		return "makeslice:" + typeStr(v.Type())
 	case *ssa.MakeChan:
-		return "makechan:" + short(types.TypeString(v.Type(), nil))
+		return "makechan:" + typeStr(v.Type())
 	case *ssa.Slice:
 		if a, ok := v.X.(*ssa.Alloc); ok && (a.Comment == "varargs" || a.Comment == "slicelit") && v.Low == nil && v.High == nil {
 			els := c.e.OrderedElems(v)
@@ -375,7 +527,7 @@ func (c *rctx) alloc(a *ssa.Alloc) string {
 	if name == "" {
 		name = "tmp"
 	}
-	return pre + "&" + name + ":" + short(types.TypeString(t, nil))
+	return pre + "&" + name + ":" + typeStr(t)
 }
 
 // load renders *addr.
@@ -465,6 +617,17 @@ func (c *rctx) phi(p *ssa.Phi) string {
 }
 
 func (c *rctx) call(cc *ssa.CallCommon) string {
+	if c.inline && c.ilevel < 3 && !cc.IsInvoke() {
+		if f := cc.StaticCallee(); f != nil && c.e.inlinable(f) && len(cc.Args) == len(f.Params) {
+			sub := map[*ssa.Parameter]string{}
+			for i, a := range cc.Args {
+				sub[f.Params[i]] = c.x(a)
+			}
+			ret := f.Blocks[0].Instrs[len(f.Blocks[0].Instrs)-1].(*ssa.Return)
+			ic := &rctx{e: c.e, fn: f, seen: map[ssa.Value]bool{}, inline: true, subst: sub, ilevel: c.ilevel + 1, depth: c.depth}
+			return ic.x(ret.Results[0])
+		}
+	}
 	// readability normalisations on resolved callees
 	switch calleeName(cc) {
 	case "(*timestamppb.Timestamp).AsTime":
@@ -562,6 +725,7 @@ func (c *rctx) sel(s *ssa.Select) string {
 type Lit struct {
 	Atom string
 	Pos  bool
+	Alt  string // the atom with small pure helpers inlined, when different
 }
 
 func (l Lit) String() string {
@@ -589,16 +753,47 @@ func isConstLike(v ssa.Value) bool {
 // != into ¬==, > / >= / <= into < with swapped operands or flipped polarity,
 // puts constants on the right, and names select cases by their channel.
 func (e *Eng) CondLit(fn *ssa.Function, v ssa.Value) Lit {
+	l := e.condLit(fn, v, false)
+	if a := e.condLit(fn, v, true); a.Atom != l.Atom && a.Pos == l.Pos {
+		l.Alt = a.Atom
+	}
+	return l
+}
+
+// curPhiSub: phis fixed by the path under which a condition is being read (set by EdgeLit).
+var curPhiSub map[*ssa.Phi]ssa.Value
+
+func (e *Eng) condLit(fn *ssa.Function, v ssa.Value, inline bool) Lit {
 	pos := true
-	for {
+	for k := 0; k < 16; k++ {
 		if u, ok := v.(*ssa.UnOp); ok && u.Op == token.NOT {
 			pos = !pos
 			v = u.X
 			continue
 		}
+		if p, ok := v.(*ssa.Phi); ok {
+			if sv, ok := curPhiSub[p]; ok && sv != v {
+				v = sv
+				continue
+			}
+		}
 		break
 	}
-	c := &rctx{e: e, fn: fn, seen: map[ssa.Value]bool{}}
+	c := &rctx{e: e, fn: fn, seen: map[ssa.Value]bool{}, inline: inline, phiSub: curPhiSub}
+	if inline {
+		// a call of an inlinable boolean helper is itself a condition: look at its body
+		if call, ok := v.(*ssa.Call); ok && !call.Call.IsInvoke() {
+			if f := call.Call.StaticCallee(); f != nil && e.inlinable(f) && len(call.Call.Args) == len(f.Params) {
+				s := c.x(v)
+				// normalise leading negation / comparison spelled in the body
+				for strings.HasPrefix(s, "!") {
+					s = s[1:]
+					pos = !pos
+				}
+				return Lit{Atom: s, Pos: pos}
+			}
+		}
+	}
 	if b, ok := v.(*ssa.BinOp); ok {
 		x, y, op := b.X, b.Y, b.Op
 		switch op {
@@ -626,17 +821,17 @@ func (e *Eng) CondLit(fn *ssa.Function, v ssa.Value) Lit {
 							if !s.Blocking {
 								bl = "nb-"
 							}
-							return Lit{bl + "sel:" + d + c.x(st.Chan), pos}
+							return Lit{Atom: bl + "sel:" + d + c.x(st.Chan), Pos: pos}
 						}
 						if i, ok := constant.Int64Val(k.Value); ok && i == -1 {
-							return Lit{"sel:default", pos}
+							return Lit{Atom: "sel:default", Pos: pos}
 						}
 					}
 				}
 			}
 			// boolean compared with constant
 			if k, ok := y.(*ssa.Const); ok && k.Value != nil && k.Value.Kind() == constant.Bool {
-				l := e.CondLit(fn, x)
+				l := e.condLit(fn, x, inline)
 				if !constant.BoolVal(k.Value) {
 					l.Pos = !l.Pos
 				}
@@ -649,20 +844,20 @@ func (e *Eng) CondLit(fn *ssa.Function, v ssa.Value) Lit {
 			if isConstLike(x) && !isConstLike(y) || (!isConstLike(y) && xs > ys) {
 				xs, ys = ys, xs
 			}
-			return Lit{"(" + xs + " == " + ys + ")", pos}
+			return Lit{Atom: "(" + xs + " == " + ys + ")", Pos: pos}
 		}
 		if op == token.LSS {
 			// 0 < len(x)  ==  ¬(len(x) == 0);   len(x) < 1  ==  (len(x) == 0)
 			if isIntConst(x, 0) && isLenCall(y) {
-				return Lit{"(" + c.x(y) + " == 0)", !pos}
+				return Lit{Atom: "(" + c.x(y) + " == 0)", Pos: !pos}
 			}
 			if isIntConst(y, 1) && isLenCall(x) {
-				return Lit{"(" + c.x(x) + " == 0)", pos}
+				return Lit{Atom: "(" + c.x(x) + " == 0)", Pos: pos}
 			}
 		}
-		return Lit{"(" + c.x(x) + " " + op.String() + " " + c.x(y) + ")", pos}
+		return Lit{Atom: "(" + c.x(x) + " " + op.String() + " " + c.x(y) + ")", Pos: pos}
 	}
-	return Lit{c.x(v), pos}
+	return Lit{Atom: c.x(v), Pos: pos}
 }
 
 func isIntConst(v ssa.Value, n int64) bool {
